@@ -1,7 +1,7 @@
 (* C16 - Asynchronous requests (set_data / get_data). *)
 From Coq Require Import ZArith List Bool Arith.
 Import ListNotations.
-From MV Require Import Time.Spec Static.Build Sched.Timing Sched.Plane Sched.DataP Sched.Inv Sched.Main Sched.Guards Sched.Final.
+From MV Require Import Time.Spec Static.Build Sched.Timing Sched.Plane Sched.DataP Sched.Inv Sched.Main Sched.Guards Sched.Final Sched.SetData.
 Open Scope Z_scope.
 
 (* values written with set_data are handed to the next step of the target and the register is empty afterwards:
@@ -25,3 +25,28 @@ Theorem C16_refused_without_connection : forall st dt s ds i w j a v,
   dapply st dt (s, ds) (DSetData i w j a v) = DAsyncRefused i j.
 Proof. intros. simpl. rewrite H. reflexivity. Qed.
 Print Assumptions C16_refused_without_connection.
+
+(* exactly once, in the next step: a written value stays in the target's register across every event that is neither the
+   target's own BEGIN nor another set_data call to the target ... *)
+Theorem C16_set_data_stays_until_next_step : forall st dt s ds e s' ds' inp j,
+  dapply st dt (s, ds) e = DOk s' ds' inp ->
+  (forall t m, e <> DBegin j t m) -> (forall i w a v, e <> DSetData i w j a v) ->
+  setdata (ds' j) = setdata (ds j).
+Proof. exact set_data_kept. Qed.
+Print Assumptions C16_set_data_stays_until_next_step.
+
+(* ... and the target's next step receives it under the writer's key (unless a connection of the scenario delivers to the
+   very same (attribute, source) slot in that step); afterwards the register is empty (first theorem above) *)
+Theorem C16_set_data_delivered_to_next_step : forall dt ds j step inp ds' a k v,
+  get_input_data dt ds j step = (inp, ds') -> iget a k (setdata (ds j)) = Some v ->
+  (forall e, In e (buffer (ds j)) -> btime e <= step -> (battr e, bsrc e) <> (a, k)) ->
+  (forall src sh flows sa da, In ((src, sh), flows) (pulled dt j) -> In (sa, da) flows -> (da, src) <> (a, k)) ->
+  iget a k inp = Some v.
+Proof. exact set_data_delivered. Qed.
+Print Assumptions C16_set_data_delivered_to_next_step.
+
+(* what a set_data call writes is what the register holds under (attribute, writer key) *)
+Theorem C16_set_data_writes_register : forall a k v a' k' d,
+  iget a' k' (iset a k v d) = if Nat.eqb a' a && Nat.eqb k' k then Some v else iget a' k' d.
+Proof. exact iget_iset. Qed.
+Print Assumptions C16_set_data_writes_register.
